@@ -7,7 +7,8 @@ import ImathVerif.Spec.PyList
 /-!
 Line-protocol driver for the PyImath array models (C19).
 
-  drv_fixedarray [maskedAccessThrows=0|1] [convertDense=0|1]     (defaults: 0 0 = the code as written)
+  drv_fixedarray [maskedAccessThrows] [convertDense] [sliceEmptyBackward] [ifelseConstRead] [maskOnMaskedHonoured]
+                 (each 0|1; default 0 = the code as written)
 
 stdin: one op per line, stdout: one canonical line per op.
 
@@ -111,10 +112,10 @@ def parseOp (t : List String) : Option Op :=
   | ["iaddv", v, d] => some (.iaddVector v.toNat! d.toNat!)
   | _ => none
 
-def handleSlice (t : List String) : String :=
+def handleSlice (cfg : Cfg) (t : List String) : String :=
   match t with
   | [len, a, b, c] =>
-    match extractSliceIndices len.toNat! (.slice (parseOpt a) (parseOpt b) (parseOpt c)) with
+    match extractSliceIndices len.toNat! (.slice (parseOpt a) (parseOpt b) (parseOpt c)) (-1) cfg.minStart with
     | .ok s => s!"ok {s.start} {s.stop} {s.step} {s.slicelength} {showInts ((List.range s.slicelength).map (fun i => Int.ofNat (s.at i)))}"
     | .error e => showErr e
   | _ => "bad"
@@ -243,7 +244,7 @@ partial def loop (cfg : Cfg) (stdin stdout : IO.FS.Stream) (d : DState) : IO Uni
   match t with
   | [] => loop cfg stdin stdout d
   | ["reset"] => stdout.putStrLn "reset"; loop cfg stdin stdout {}
-  | "slice" :: rest => stdout.putStrLn (handleSlice rest); loop cfg stdin stdout d
+  | "slice" :: rest => stdout.putStrLn (handleSlice cfg rest); loop cfg stdin stdout d
   | "specslice" :: rest => stdout.putStrLn (handleSpecSlice rest); loop cfg stdin stdout d
   | "specgetitem" :: rest => stdout.putStrLn (handleSpecGetitem rest); loop cfg stdin stdout d
   | ["witnesses"] =>
@@ -272,7 +273,7 @@ partial def loop (cfg : Cfg) (stdin stdout : IO.FS.Stream) (d : DState) : IO Uni
 
 def main (args : List String) : IO Unit := do
   let flag (i : Nat) : Bool := (args[i]? |>.getD "0") == "1"
-  let cfg : Cfg := ⟨flag 0, flag 1⟩
+  let cfg : Cfg := ⟨flag 0, flag 1, flag 2, flag 3, flag 4⟩
   let stdin ← IO.getStdin
   let stdout ← IO.getStdout
   loop cfg stdin stdout {}
